@@ -16,6 +16,10 @@ RECURSIVE IPow(_, _)
 IPow(a, n) == IF n = 0 THEN 1 ELSE IF E.kind = "fld" THEN (a * IPow(a, n - 1)) % E.P ELSE a * IPow(a, n - 1)
 \* products of field elements are reduced factor by factor (TLC integers are 32-bit)
 PrdSeqM(s) == FoldSeq(LAMBDA a, b : IF E.kind = "fld" THEN (a * b) % E.P ELSE a * b, 1, s)
+\* keepdims = TRUE (E.k2 = 1 for reductions): the reduced axis stays with length 1 (all axes for axis = None)
+Keep(R) == IF E.k2 # 1 THEN R
+           ELSE IF E.axis = NoAxis THEN [sh |-> [i \in 1..Len(E.A.sh) |-> 1], d |-> R.d]
+           ELSE [sh |-> [E.A.sh EXCEPT ![NormAxis(E.axis, Len(E.A.sh)) + 1] = 1], d |-> R.d]
 ModP(A) == IF E.kind = "fld" THEN Elem1(LAMBDA v : v % E.P, A) ELSE A
 Exact(fn) ==
   CASE fn = "add" -> Elem2(LAMBDA a, b : a + b, E.A, E.B)
@@ -34,14 +38,14 @@ Exact(fn) ==
     [] fn = "maximum" -> Elem2(Max, E.A, E.B)
     [] fn = "matmul" -> MatMul(E.A, E.B)
     [] fn = "outer" -> Outer(E.A, E.B)
-    [] fn = "sum" -> ReduceLane(SumSeq, E.A, E.axis)
-    [] fn = "prod" -> ReduceLane(PrdSeqM, E.A, E.axis)
-    [] fn = "all" -> ReduceLane(AllSeq, E.A, E.axis)
-    [] fn = "any" -> ReduceLane(AnySeq, E.A, E.axis)
-    [] fn = "amin" -> ReduceLane(MinSeq, E.A, E.axis)
-    [] fn = "amax" -> ReduceLane(MaxSeq, E.A, E.axis)
-    [] fn = "argmin" -> ReduceLane(ArgMinSeq, E.A, E.axis)
-    [] fn = "argmax" -> ReduceLane(ArgMaxSeq, E.A, E.axis)
+    [] fn = "sum" -> Keep(ReduceLane(SumSeq, E.A, E.axis))
+    [] fn = "prod" -> Keep(ReduceLane(PrdSeqM, E.A, E.axis))
+    [] fn = "all" -> Keep(ReduceLane(AllSeq, E.A, E.axis))
+    [] fn = "any" -> Keep(ReduceLane(AnySeq, E.A, E.axis))
+    [] fn = "amin" -> Keep(ReduceLane(MinSeq, E.A, E.axis))
+    [] fn = "amax" -> Keep(ReduceLane(MaxSeq, E.A, E.axis))
+    [] fn = "argmin" -> Keep(ReduceLane(ArgMinSeq, E.A, E.axis))
+    [] fn = "argmax" -> Keep(ReduceLane(ArgMaxSeq, E.A, E.axis))
     [] fn = "cumsum" -> IF E.axis = NoAxis THEN MapLane(CumSum, Flat(E.A), 0) ELSE MapLane(CumSum, E.A, E.axis)
     [] fn = "sort" -> IF E.axis = NoAxis THEN MapLane(Sorted, Flat(E.A), 0) ELSE MapLane(Sorted, E.A, E.axis)
     [] fn = "flip" -> IF E.axis = NoAxis THEN [sh |-> E.A.sh, d |-> RevSeq(E.A.d)] ELSE MapLane(RevSeq, E.A, E.axis)
